@@ -57,6 +57,8 @@ def sibling_name(stem, sib, links):
     sfx = SIB_SUFFIXES[idx % len(SIB_SUFFIXES)]
     if kind == "deltemp":   # exactly the name wild would use as its rename target for link idx
         return delete_temp(links[idx % len(links)])
+    if kind == "outsfx":    # the output's own name plus a backup-style suffix (out.old, out.bak, out~, out.orig)
+        return links[idx % len(links)]["out"] + [".old", ".bak", "~", ".orig", ".old", ".tmp"][idx % 6]
     if kind == "stem":
         return stem + sfx
     if kind == "dot":
@@ -209,13 +211,16 @@ class C19(Check):
             "threads": st.sampled_from([2, 4, 0, 1]),
             "fork": st.booleans(),
             "prior": st.sampled_from(PRIORS),
+            # the previous output (a regular file) is a program that is *running* while the link happens: opening it
+            # for writing fails with ETXTBSY and the linker takes its replace-the-busy-file path
+            "busy": st.sampled_from([False, False, True]),
             "side": side,
             # the statement covers failing links too: an injected failure (WILD_VERIF_CRASH) before, while or
             # after the output is written makes wild run its clean-up paths
             "fail": st.sampled_from(FAILS),
         })
         sib = st.fixed_dictionaries({
-            "pat": st.sampled_from(["stem", "stem", "stem", "dot", "bare", "deltemp", "deltemp"]),
+            "pat": st.sampled_from(["stem", "stem", "stem", "dot", "bare", "deltemp", "deltemp", "outsfx", "outsfx"]),
             "sfx": st.integers(0, len(SIB_SUFFIXES) - 1),
             "kind": st.sampled_from(SIB_KINDS),
         })
@@ -281,13 +286,22 @@ class C19(Check):
                 os.utime(p, (OLD_MTIME, OLD_MTIME))
 
         # Prior outputs.
+        busy_outs = []           # previous outputs that are executed while the links run
         allowed = set()          # may be created / changed / removed
         must_exist = set()       # content may change (same inode as the output) but must stay present
         for l in links:
             out = os.path.join(w, l["out"])
             allowed.add(l["out"])
             if l["prior"] in ("regular", "hardlink"):
-                tools.write(out, b"OLD-OUTPUT " * 200)
+                if l.get("busy") and l["prior"] == "regular":
+                    if not os.path.exists(os.path.join(ctx.dir, "sleeper")):
+                        tools.asm(".globl _start\n_start:\n1:  mov $34, %eax\n    syscall\n    jmp 1b\n", "sleeper.o", cwd=ctx.dir)
+                        tools.must(tools.link("ld", ["sleeper.o", "-o", "sleeper"], cwd=ctx.dir), "sleeper program")
+                    import shutil
+                    shutil.copy(os.path.join(ctx.dir, "sleeper"), out)
+                    busy_outs.append(out)
+                else:
+                    tools.write(out, b"OLD-OUTPUT " * 200)
                 os.chmod(out, 0o755)
                 os.utime(out, (OLD_MTIME, OLD_MTIME))
                 if l["prior"] == "hardlink":
@@ -308,6 +322,14 @@ class C19(Check):
             return any(rel.startswith(a + "/") for a in allowed if a.startswith("save-"))
 
         before = hist.snapshot(w)
+        import subprocess
+        sleepers = []
+        for bo in busy_outs:
+            try:
+                sleepers.append(subprocess.Popen([bo], cwd=w, stdin=subprocess.DEVNULL, stdout=subprocess.DEVNULL,
+                                                 stderr=subprocess.DEVNULL))
+            except OSError as e:
+                raise Inconclusive(f"cannot start the previous output: {e}")
 
         # Commands.
         cmds = []
@@ -395,6 +417,9 @@ class C19(Check):
             t.join()
         for p in pauses.values():
             p.close()
+        for sp in sleepers:
+            sp.kill()
+            sp.wait()
         if errors:
             e = errors[0]
             raise e if isinstance(e, Inconclusive) else Inconclusive(f"runner failed: {e!r}")
@@ -465,7 +490,10 @@ class C19(Check):
         for (l, args, env), r in zip(cmds, results):
             info["classes"].append(f"mode:{l['mode']}")
             info["classes"].append("rc0" if r.rc == 0 else "rc!=0")
-            if l.get("fail"):
+            if l.get("fail") and r.rc != 0 and "Text file busy" in r.err:
+                # the running previous output could not be updated in place: the link failed before the injected point
+                info["classes"].append("fails:busy-output")
+            elif l.get("fail"):
                 if r.rc == 0 or "verif: injected" not in r.err:
                     raise Inconclusive(f"injected failure {l['fail']} did not fire: rc={r.rc} {r.err[-200:]}")
                 info["classes"].append("fails-at:" + l["fail"] + ("+layout" if "layout" in side_paths(l) else ""))
@@ -479,6 +507,10 @@ class C19(Check):
         stem_sibs = [n for n in sibs if n.startswith(case["stem"]) or n.startswith("." + case["stem"])]
         any_prior = any(l["prior"] != "absent" for l in links)
         info["classes"].append(f"nlinks:{len(links)}")
+        if busy_outs:
+            info["classes"].append("previous-output-running" + (":with-out-suffix-sibling" if any(
+                (bo_rel + sfx) in sibs for bo_rel in (os.path.relpath(b, w) for b in busy_outs)
+                for sfx in (".old", ".bak", "~", ".orig", ".tmp")) else ""))
         if case.get("share_save") and sum(1 for l in links if "save" in side_paths(l)) >= 2:
             info["classes"].append("concurrent-links-share-save-dir" + (":scheduled" if pauses else ""))
         info["nontrivial"] = bool((stem_sibs and any_prior) or len(links) >= 2)
